@@ -453,3 +453,15 @@ def c14(tier, rep):
         rep.set("operands_excluded_by_premise", d["operands_excluded_by_premise"])
         rep.set("distinct_nontrivial", d["inputs"])
     rep.set("rule", "A: EVERY chain over the 70 operator instances (22 spellings, typed =>[] / <->, <<<, each with/without ~, 10 wrapper forms) with wrappers balanced per step, length <= %d, operands = unique markers, rendered spaced and glued; B: 44 adversarial expression operands, 8 type operands, 5 member operands (closure return types, turbofish commas, generic closers, look-alikes in delimiters / macro calls / literals, comparisons and shifts) x every operand position of every operator x every following operator instance x deferred, also as initial value, let value and handler expression; C: 1-3 branches x handler at every position x let subsets x trailing comma; oracle: parsed structure (combinator, deferred, wrap/unwrap, operand tokens, let ident, branch count, handler) equals the structure the input was rendered from; an operand is admitted only if an independent premise check finds no top-level split point" % L)
+
+
+@check("C02", "exploration")
+def c02(tier, rep):
+    from . import fam_wrappers
+
+    progs, stats = fam_wrappers.programs(tier)
+    fr = e2.run_family("c02", progs)
+    judge_family(rep, fr)
+    rep.set("wrapper_operator_kind_pairs", len(stats["wrappers"]))
+    rep.set("rule", "each of the ten wrapper-capable operators on every kind it types on (25 operator x kind pairs) x every inner chain of length <= 2 (incl. empty, nested wrappers up to depth %d, a block capture as first inner operand) x closing modes {explicit <<<, <<< + outer operator, <<< + ~outer operator, open to branch end, open to step end + ~operator, ~wrapper open, ~wrapper closed} x {join!, try_join!}, as two-branch programs whose second branch has captures in both steps; value and FULL trace against the reference `.x(|v| v inner) rest`; non-trivial = trace non-empty and >= 2 outcomes" % (2 if tier == "quick" else 3))
+    sample_family(rep, progs, fr)
